@@ -13,3 +13,13 @@ func (ctrler *EVMCtrler) VerifLastRootHash() []byte {
 func (ctrler *EVMCtrler) VerifLastBlockHeight() int64 {
 	return ctrler.lastBlockHeight
 }
+
+// VerifCloseLeaked closes the EVM state database when Close() left it open: Close() reaches it only
+// through the per-block state wrapper, which is nil for an application that is stopped between blocks
+// (so that a harness can open and stop many application instances in one process).
+func (ctrler *EVMCtrler) VerifCloseLeaked() {
+	defer func() { _ = recover() }()
+	if ctrler.ethDB != nil {
+		_ = ctrler.ethDB.Close()
+	}
+}
